@@ -1049,3 +1049,69 @@ mod tests {
         assert!(t.samples[3].sync && !t.samples[2].sync);
     }
 }
+
+#[cfg(test)]
+mod fragment_tests {
+    use super::*;
+
+    fn bx(t: &[u8; 4], p: &[u8]) -> Vec<u8> {
+        let mut v = ((8 + p.len()) as u32).to_be_bytes().to_vec();
+        v.extend_from_slice(t);
+        v.extend_from_slice(p);
+        v
+    }
+
+    /// A fragment in a form muxide never writes: tfhd with default duration/size/flags, two truns,
+    /// the first without per-sample fields (all defaulted) but with first_sample_flags, the second
+    /// version 0 with explicit sizes; tfdt version 0.
+    #[test]
+    fn tfhd_defaults_first_sample_flags_two_truns() {
+        let mfhd = bx(b"mfhd", &[0, 0, 0, 0, 0, 0, 0, 7]);
+        let mut tfhd_p = vec![0, 0x02, 0x00, 0x38]; // default-base-is-moof | dur | size | flags
+        tfhd_p.extend_from_slice(&1u32.to_be_bytes());
+        tfhd_p.extend_from_slice(&3000u32.to_be_bytes());
+        tfhd_p.extend_from_slice(&4u32.to_be_bytes());
+        tfhd_p.extend_from_slice(&0x0101_0000u32.to_be_bytes());
+        let tfhd = bx(b"tfhd", &tfhd_p);
+        let tfdt = bx(b"tfdt", &[0, 0, 0, 0, 0, 0, 0x27, 0x10]);
+        // trun 1: data_offset + first_sample_flags, 2 samples, everything else defaulted
+        let mut t1 = vec![0, 0, 0, 0x05];
+        t1.extend_from_slice(&2u32.to_be_bytes());
+        t1.extend_from_slice(&0u32.to_be_bytes()); // data offset patched below
+        t1.extend_from_slice(&0x0200_0000u32.to_be_bytes());
+        // trun 2: sizes only, 1 sample, continues after trun 1
+        let mut t2 = vec![0, 0, 0x02, 0x00];
+        t2.extend_from_slice(&1u32.to_be_bytes());
+        t2.extend_from_slice(&6u32.to_be_bytes());
+        let mut traf_p = Vec::new();
+        traf_p.extend_from_slice(&tfhd);
+        traf_p.extend_from_slice(&tfdt);
+        let t1_off_in_traf = traf_p.len();
+        traf_p.extend_from_slice(&bx(b"trun", &t1));
+        traf_p.extend_from_slice(&bx(b"trun", &t2));
+        let mut moof_p = mfhd.clone();
+        let traf_off = moof_p.len();
+        moof_p.extend_from_slice(&bx(b"traf", &traf_p));
+        let mut moof = bx(b"moof", &moof_p);
+        let data_offset = (moof.len() + 8) as u32;
+        let pos = 8 + traf_off + 8 + t1_off_in_traf + 8 + 8;
+        moof[pos..pos + 4].copy_from_slice(&data_offset.to_be_bytes());
+        let mut seg = moof.clone();
+        seg.extend_from_slice(&bx(b"mdat", &[1, 1, 1, 1, 2, 2, 2, 2, 3, 3, 3, 3, 3, 3]));
+        let tree = parse_tree(&seg);
+        assert!(tree.errors.is_empty(), "{:?}", tree.errors);
+        let f = parse_fragment(&seg, &tree, None);
+        assert!(f.errors.is_empty(), "{:?}", f.errors);
+        assert_eq!(f.sequence_number, 7);
+        assert_eq!(f.base_decode_time, Some(10_000));
+        assert_eq!(f.samples.len(), 3);
+        assert_eq!(f.samples.iter().map(|s| s.size).collect::<Vec<_>>(), vec![4, 4, 6]);
+        assert_eq!(f.samples.iter().map(|s| s.dur).collect::<Vec<_>>(), vec![3000, 3000, 3000]);
+        assert_eq!(f.samples[0].flags, 0x0200_0000);
+        assert_eq!(f.samples[1].flags, 0x0101_0000);
+        let off0 = f.samples[0].offset as usize;
+        assert_eq!(&seg[off0..off0 + 4], &[1, 1, 1, 1]);
+        let off2 = f.samples[2].offset as usize;
+        assert_eq!(&seg[off2..off2 + 6], &[3, 3, 3, 3, 3, 3]);
+    }
+}
